@@ -100,6 +100,10 @@ func (r *Run) Simulate(main func()) {
 		// swarm: per-run context-switch rate
 		r.Sim.SwitchDen = []int{4, 16, 64, 256}[r.Tape.S("cfg").Choose(4, "switchden")]
 	}
+	if d := r.CfgInt("stallden", 0); d > 0 {
+		// swarm: stalls in two runs out of three
+		r.Sim.StallDen = []int{0, d, d * 4}[r.Tape.S("cfg").Choose(3, "stallden")]
+	}
 	r.Sim.SiteNames = SiteName
 	if p := os.Getenv("DSIM_TRACE"); p != "" {
 		if f, err := os.OpenFile(p, os.O_CREATE|os.O_WRONLY|os.O_APPEND, 0o644); err == nil {
@@ -114,6 +118,9 @@ func (r *Run) Simulate(main func()) {
 		r.SimSetup(r.Sim)
 	}
 	r.Sim.Run(main)
+	if n := r.Sim.Stats.Stalls; n > 0 {
+		r.Stats["fault_stall_all_goroutines"] += n
+	}
 	if r.Sim.Failure != "" {
 		r.Aborted = false
 		defer func() { r.Aborted = true }()
